@@ -42,7 +42,8 @@ ASSUMPTIONS = ["oracle (ii) is evaluated on token-clean lists (every field a non
                "are not used as genuine values",
                "a missing table file or directory is written `none` and read back as the text `none`: identified",
                "in a tag list `generic` stands for the reader's flavor and entries of other flavors are not the reader's",
-               "`dummy` versions (which make remapEntries declare a product) are outside the model"]
+               "the `dummy` branch of remapEntries is observed by listing the scratch stack afterwards (set of products at version "
+               "dummy), not by the order of the declare calls"]
 
 NATIVE = "Linux"
 FLAVORS = ["Linux", "Linux64", "DarwinX86", "generic"]
@@ -137,9 +138,21 @@ def gen_taglist(rng):
         a = dict(rng.choice(adds))
         a["version"] = gen_version(rng)
         adds.append(a)
-    return {"kind": "taglist", "tag": rng.choice(["current", "stable", "beta", "w_2012_10"]), "defFlavor": def_flavor,
-            "adds": adds, "writeFlavor": rng.choice([None, None, None, "Linux", "generic"]),
-            "readFlavor": rng.choice([def_flavor, def_flavor, None, "Linux", "Linux64", "generic"])}
+    tag = rng.choice(["current", "stable", "beta", "w_2012_10"])
+    if rng.random() < 0.2:          # release names are free text: dots, pluses, parentheses (the header pattern is built from them)
+        tag = rng.choice(ODD_TAGS)
+    c = {"kind": "taglist", "tag": tag, "defFlavor": def_flavor,
+         "adds": adds, "writeFlavor": rng.choice([None, None, None, "Linux", "generic"]),
+         "readFlavor": rng.choice([def_flavor, def_flavor, None, "Linux", "Linux64", "generic"])}
+    if rng.random() < 0.12:         # a reader that expects another tag: the header names the tag and must be checked
+        other = {"v1.0": "v1x0", "v1x0": "v1.0", "w.2012.10": "w_2012_10", "a|b": "a", "x*": "x", "q?": "q"}
+        c["readTag"] = other.get(tag) or rng.choice(["current", "stable", "v1.0", "beta2"])
+        if c["readTag"] == tag:
+            del c["readTag"]
+    return c
+
+
+ODD_TAGS = ["v1.0", "v1x0", "c++", "gcc4.8+boost", "rel(1)", "x*", "b[1]", "q?", "a|b", "w.2012.10", "rc^2", "pay$", "{x}"]
 
 
 def gen_server(rng):
@@ -213,6 +226,554 @@ def gen_mapping(rng):
     return {"kind": "mapping", "style": kind, "adds": adds, "queries": queries}
 
 
+def gen_createdeps(rng):
+    """A small product graph on a real stack (p0 requires a random subset of the later products, some optionally, some
+    optional ones missing) for Distrib._createDeps: the dependency manifest must be in install order."""
+    n = rng.randint(2, 6)
+    names = ["p%d" % i for i in range(n)]
+    prods = []
+    for i in range(n):
+        reqs = []
+        for j in range(i + 1, n):
+            if rng.random() < 0.5:
+                reqs.append([names[j], rng.random() < 0.25])
+        if rng.random() < 0.2:
+            reqs.append(["ghost%d" % i, True])             # an optional product that is not installed
+        if i == 0 and not reqs and n > 1:
+            reqs.append([names[1], False])
+        rng.shuffle(reqs)
+        prods.append({"name": names[i], "requires": reqs})
+    return {"kind": "createdeps", "products": prods}
+
+
+def _createdeps_child(c):
+    import importlib
+    root = common.scratch("c18cd")
+    try:
+        stacks, _ = common.mkstacks(root, default_product=True)
+        E = common.new_eups()
+        for p_ in c["products"]:
+            table = "".join("%s(%s)\n" % ("setupOptional" if opt else "setupRequired", nm) for nm, opt in p_["requires"])
+            d = common.mkprod(stacks[0], p_["name"], "1", table)
+            E.declare(p_["name"], "1", d, tag="current")
+        E = common.new_eups()
+        seen = {}
+        real = E.getDependentProducts
+
+        def recording(*a, **kw):
+            r = real(*a, **kw)
+            seen["deps"] = [[x[0].name, x[0].version, bool(x[1]), x[2]] for x in r]
+            return r
+        E.getDependentProducts = recording
+        D = importlib.import_module("eups.distrib.Distrib")
+        dd = D.DefaultDistrib(E, None, verbosity=-1, log=open(os.devnull, "w"))
+        try:
+            man = dd._createDeps(c["products"][0]["name"], "1", recursive=True)
+            out = {"order": [[p_.product, p_.version, bool(p_.isOpt)] for p_ in man.getProducts()]}
+        except Exception as e:  # noqa
+            out = {"error": type(e).__name__}
+        deps = []
+        for nm, ver, opt, depth in seen.get("deps", []):
+            f = E.findProductFromVRO(nm, ver)[0]
+            deps.append({"name": nm, "version": ver or "", "optional": opt, "depth": depth, "found": f.version if f else None})
+        out["deps"] = deps
+        return out
+    finally:
+        common.rmtree(root)
+
+
+def impl_createdeps(c):
+    r = common.in_child(_createdeps_child, c)
+    return r[1] if r[0] == "ok" else {"error": "CHILD:" + str(r[1:3]), "deps": []}
+
+
+def oracle_createdeps(c, io_):
+    """Install order, from the graph alone: the top product is last, every installed product of the closure is listed once,
+    and every product comes after the (installed) products it requires."""
+    if "order" not in io_:
+        yield ("createdeps_runs", None, "_createDeps raised %s" % io_.get("error"))
+        return
+    have = {p_["name"]: p_ for p_ in c["products"]}
+    order = [x[0] for x in io_["order"]]
+    top = c["products"][0]["name"]
+    if not order or order[-1] != top:
+        yield ("manifest_install_order", None, "the product being packaged (%s) is not last: %r" % (top, order))
+    closure, todo = [], [top]
+    while todo:
+        x = todo.pop()
+        if x in closure or x not in have:
+            continue
+        closure.append(x)
+        todo += [nm for nm, _ in have[x]["requires"]]
+    if sorted(order) != sorted(closure):
+        yield ("manifest_lists_the_closure", None, "listed %r, the installed closure is %r" % (sorted(order), sorted(closure)))
+        return
+    pos = {x: i for i, x in enumerate(order)}
+    for x in closure:
+        for nm, _ in have[x]["requires"]:
+            if nm in pos and pos[nm] > pos[x]:
+                yield ("manifest_install_order", None, "%s requires %s but is listed before it: %r" % (x, nm, order))
+                return
+
+
+def gen_srvfile(rng):
+    """Files on a server (tables/<name>.table with distinct contents) and a history of getFile requests to ONE
+    DistribServer object, each with a destination file: a fresh one (what getFile generates by default) or one of two scratch
+    files that the caller reuses."""
+    names = ["afw", "boost", "python", "utils"][:rng.randint(2, 4)]
+    srv = [["tables/%s.table" % n, "setupRequired(%s_dep)\n# %d\n" % (n, rng.randint(0, 999))] for n in names]
+    reqs, fresh = [], 0
+    for _ in range(rng.randint(2, 9)):
+        path = rng.choice([x[0] for x in srv] + (["tables/absent.table"] if rng.random() < 0.1 else []))
+        r = rng.random()
+        if r < 0.45:
+            dest = "fresh%d" % fresh
+            fresh += 1
+        else:
+            dest = rng.choice(["scratchA", "scratchA", "scratchB"])
+        reqs.append([path, dest])
+    return {"kind": "srvfile", "server": srv, "reqs": reqs}
+
+
+def impl_srvfile(c):
+    import tempfile
+    from eups.distrib import server
+    E = _eups()
+    _SERVER_N[0] += 1
+    base = os.path.join(E._c18root, "fsrv%d" % _SERVER_N[0])
+    os.makedirs(os.path.join(base, "tables"))
+    dests = os.path.join(E._c18root, "fdest%d" % _SERVER_N[0])
+    os.makedirs(dests)
+    for p_, text in c["server"]:
+        with open(os.path.join(base, p_), "w") as f:
+            f.write(text)
+    tempfile.tempdir = E._c18root
+    server.DistribServer._fileCache.clear()
+    ds = server.DistribServer(base, verbosity=-1)
+    answers = []
+    for path, dest in c["reqs"]:
+        try:
+            f = ds.getFile(path, filename=os.path.join(dests, dest))
+            with open(f) as fh:
+                answers.append({"content": fh.read()})
+        except Exception as e:  # noqa
+            n = type(e).__name__
+            answers.append({"error": "notfound" if n == "RemoteFileNotFound" else "samefile" if n == "SameFileError" else n})
+    return {"answers": answers}
+
+
+def oracle_srvfile(c, io_):
+    """Whatever was asked before and wherever the copies were put: the file a server object hands out for a path holds what
+    the server holds under that path."""
+    srv = dict((p_, t) for p_, t in c["server"])
+    for i, ((path, dest), a) in enumerate(zip(c["reqs"], io_["answers"])):
+        want = {"content": srv[path]} if path in srv else {"error": "notfound"}
+        if a != want:
+            yield ("server_file_is_the_servers_file", None, "request %d (%s -> %s) after %r: got %r, the server holds %r" %
+                   (i, path, dest, c["reqs"][:i], a, want))
+            return
+
+
+def gen_manseq(rng):
+    """Operation SEQUENCES on one live Manifest: addDependency / reverse / roll(n) / getDependency / write and read back -
+    into a fresh manifest or appended to the live one (setproduct or not)."""
+    deps = [gen_dep(rng, False) for _ in range(rng.randint(1, 6))]
+    ops = [{"op": "add", "dep": d} for d in deps[:rng.randint(1, len(deps))]]
+    names = [d["product"] for d in deps]
+    for _ in range(rng.randint(2, 7)):
+        r = rng.random()
+        if r < 0.2:
+            d = gen_dep(rng, False)
+            if rng.random() < 0.5:
+                d["product"] = rng.choice(names)         # a product listed twice: getDependency has to choose
+            ops.append({"op": "add", "dep": d})
+        elif r < 0.35:
+            ops.append({"op": "reverse"})
+        elif r < 0.55:
+            ops.append({"op": "roll", "n": rng.choice([1, 1, -1, 2, -2, 0, 5, -7])})
+        elif r < 0.75:
+            d = rng.choice(deps)
+            ops.append({"op": "getdep", "product": rng.choice(names + ["absent"]),
+                        "version": rng.choice([None, None, d["version"], "0.0"]), "flavor": rng.choice([None, None, d["flavor"], "Linux"]),
+                        "which": rng.choice([-1, -1, 0, 1, -2, 3])})
+        else:
+            ops.append({"op": "roundtrip", "noOptional": rng.random() < 0.5, "flavor": rng.choice([None, None, "Linux64"]),
+                        "into": rng.choice(["fresh", "live", "B", "B"]), "setproduct": rng.random() < 0.5})
+    return {"kind": "manseq", "product": rng.choice(["top", None]), "version": rng.choice(["1.0", None]), "ops": ops}
+
+
+def impl_manseq(c):
+    from eups.distrib import server
+    E = _eups()
+    path = os.path.join(E._c18root, "seq.manifest")
+    man = server.Manifest(c["product"], c["version"], eupsenv=E, verbosity=-1, log=open(os.devnull, "w"))
+    manB = server.Manifest("other", "9.9", eupsenv=E, verbosity=-1, log=open(os.devnull, "w"))   # a second live manifest
+
+    def dump(m):
+        return {"product": m.product, "version": m.version, "deps": [dep_dict(d) for d in m.getProducts()]}
+    out = []
+    for o in c["ops"]:
+        k = o["op"]
+        try:
+            if k == "add":
+                d = o["dep"]
+                man.addDependency(d["product"], d["version"], d["flavor"], d["tablefile"], d["instDir"], d["distId"], d["isOpt"],
+                                  d["recurse"], list(d["extra"]))
+                out.append(dump(man))
+            elif k == "reverse":
+                man.reverse()
+                out.append(dump(man))
+            elif k == "roll":
+                man.roll(o["n"])
+                out.append(dump(man))
+            elif k == "getdep":
+                d = man.getDependency(o["product"], o["version"], o["flavor"], o["which"])
+                out.append(None if d is None else dep_dict(d))
+            else:
+                written = dump(man)
+                man.write(path, noOptional=o["noOptional"], flavor=o["flavor"])
+                r = man if o["into"] == "live" else manB if o["into"] == "B" else \
+                    server.Manifest(eupsenv=E, verbosity=-1, log=open(os.devnull, "w"))
+                before = dump(r)
+                try:
+                    r.read(path, setproduct=o["setproduct"])
+                    out.append({"written": written, "before": before, "read": dump(r)})
+                except Exception as e:  # noqa
+                    out.append({"error": exc_name(e)})
+        except Exception as e:  # noqa
+            out.append({"exception": type(e).__name__})
+            break
+    return {"out": out}
+
+
+def oracle_manseq(c, io_):
+    """Install order on a live manifest, step by step from the previous listing: reverse reverses it, roll(n) rotates it,
+    an addition goes to the end, getDependency returns the which-th match, and what is written and read back is the
+    listing (in order; appended when read into the live manifest)."""
+    if not all(is_word(o["dep"][f]) for o in c["ops"] if o["op"] == "add" for f in ("product", "version")):
+        return
+    prev = []
+    key = lambda d: (d["product"], d["version"], d["flavor"], d["distId"])
+    for o, r in zip(c["ops"], io_["out"]):
+        if isinstance(r, dict) and "exception" in r:
+            yield ("manifest_sequence_runs", None, "%s raised %s" % (o["op"], r["exception"]))
+            return
+        k = o["op"]
+        if k in ("add", "reverse", "roll"):
+            got = [key(d) for d in r["deps"]]
+            if k == "add":
+                exp = prev + [key(o["dep"])]
+            elif k == "reverse":
+                exp = prev[::-1]
+            else:
+                n = o["n"] % len(prev) if prev else 0
+                exp = prev[n:] + prev[:n]
+            if got != exp:
+                yield ("manifest_same_order", None, "%s(%s): %r became %r, expected %r" % (k, o.get("n", ""), [x[0] for x in prev], [x[0] for x in got], [x[0] for x in exp]))
+            prev = got
+        elif k == "getdep":
+            m_ = [x for x in prev if x[0] == o["product"] and (o["version"] is None or x[1] == o["version"]) and
+                  (o["flavor"] is None or x[2] == o["flavor"])]
+            try:
+                exp = m_[o["which"]]
+            except IndexError:
+                exp = None
+            got = None if r is None else key(r)
+            if got != exp:
+                yield ("manifest_getDependency_is_the_which_th_match", None, "%r -> %r, expected %r" % (o, got, exp))
+        else:
+            if "error" in r:
+                if all(clean_dep(d) for d in r.get("written", {}).get("deps", [])):
+                    yield ("manifest_reads_back", None, "reading the written manifest raised %s" % r["error"])
+                continue
+            # the header names product and version: taken over when asked for (setproduct) or when the reader has none
+            for f in ("product", "version"):
+                want = r["written"][f] if (o["setproduct"] or r["before"][f] is None) else r["before"][f]
+                if r["written"][f] is not None and is_word(r["written"][f]) and r["read"][f] != want:
+                    yield ("manifest_header_product_and_version", None, "%s: reader had %r, file says %r, setproduct=%s: now %r" %
+                           (f, r["before"][f], r["written"][f], o["setproduct"], r["read"][f]))
+            w = r["written"]["deps"]
+            if not all(clean_dep(d) for d in w):
+                if o["into"] == "live":
+                    prev = [key(d) for d in r["read"]["deps"]]
+                continue
+            kept = [d for d in w if not (o["noOptional"] and d["isOpt"])]
+            got = [key(d) for d in r["read"]["deps"]]
+            tail = [(d["product"], d["version"], o["flavor"] or d["flavor"], d["distId"]) for d in kept]
+            exp = [key(d) for d in r["before"]["deps"]] + tail
+            if [(a, b) for a, b, _, _ in got] != [(a, b) for a, b, _, _ in exp]:
+                yield ("manifest_same_order", None, "written %r read back as %r" % ([x[0] for x in exp], [x[0] for x in got]))
+            if o["into"] == "live":
+                prev = got
+
+
+def clean_dep(d):
+    return is_word(d["product"]) and not d["product"].startswith("#") and is_word(d["version"]) and \
+        all(d[f] is None or is_word(d[f]) for f in ("flavor", "tablefile", "instDir", "distId"))
+
+
+def gen_tagseq(rng):
+    """Operation SEQUENCES on two live TaggedProductList objects A and B: addProduct / deleteProduct / mergeProductList /
+    getProducts (also sort=True, which sorts in place) / getProductInfo / write A and read it back - into a fresh list or
+    into the live list B ("any previously registered products may get updated")."""
+    names = sorted(set(n for n in (gen_name(rng) for _ in range(rng.randint(2, 6))) if is_word(n) and not n.startswith("#"))) or ["afw"]
+    fa, fb = rng.choice([None, "Linux", "Linux64", "generic"]), rng.choice([None, "Linux", "Linux", "Linux64"])
+
+    def add(on):
+        return {"op": "add", "on": on, "product": rng.choice(names), "version": gen_version(rng),
+                "flavor": rng.choice([None, None, "Linux", "Linux64", "generic"]),
+                "extra": [gen_word(rng)] if rng.random() < 0.15 else []}
+    ops = [add("A") for _ in range(rng.randint(1, 4))] + [add("B") for _ in range(rng.randint(0, 3))]
+    for _ in range(rng.randint(2, 7)):
+        r = rng.random()
+        if r < 0.25:
+            ops.append(add(rng.choice("AAB")))
+        elif r < 0.35:
+            ops.append({"op": "delete", "on": rng.choice("AB"), "product": rng.choice(names)})
+            if rng.random() < 0.7:
+                ops.append({"op": "info", "on": ops[-1]["on"], "product": ops[-1]["product"]})
+        elif r < 0.55:
+            ops.append({"op": "merge", "on": "A"})
+        elif r < 0.70:
+            ops.append({"op": "get", "on": rng.choice("AB"), "sort": rng.random() < 0.4})
+        elif r < 0.80:
+            ops.append({"op": "info", "on": rng.choice("AB"), "product": rng.choice(names + ["absent"])})
+        else:
+            ops.append({"op": "roundtrip", "on": "A", "writeFlavor": rng.choice([None, None, "Linux", "generic"]),
+                        "readFlavor": rng.choice([fa, fa, "Linux", "Linux64", None]), "into": rng.choice(["fresh", "B", "B"])})
+    ops.append({"op": "get", "on": "A", "sort": False})
+    ops.append({"op": "get", "on": "B", "sort": False})
+    tag = rng.choice(["current", "stable", "v1.0", "c++"])
+    return {"kind": "tagseq", "tag": tag, "flavorA": fa, "flavorB": fb, "ops": ops}
+
+
+def impl_tagseq(c):
+    from eups.distrib import server
+    E = _eups()
+    path = os.path.join(E._c18root, "seq.list")
+    null = open(os.devnull, "w")
+    t = {"A": server.TaggedProductList(c["tag"], c["flavorA"], log=null), "B": server.TaggedProductList(c["tag"], c["flavorB"], log=null)}
+    out = []
+    for o in c["ops"]:
+        k = o["op"]
+        x = t[o["on"]]
+        try:
+            if k == "add":
+                x.addProduct(o["product"], o["version"], o["flavor"], list(o["extra"]) if o["extra"] else None)
+                out.append(None)
+            elif k == "delete":
+                x.deleteProduct(o["product"])
+                out.append(None)
+            elif k == "merge":
+                before = t["A"].getProducts()
+                t["A"].mergeProductList(t["B"])
+                out.append({"before": before, "other": t["B"].getProducts(), "after": t["A"].getProducts()})
+            elif k == "get":
+                out.append(x.getProducts(sort=True) if o["sort"] else x.getProducts())
+            elif k == "info":
+                out.append({"info": list(x.getProductInfo(o["product"])), "rows": x.getProducts()})
+            else:
+                written = t["A"].getProducts()
+                t["A"].write(path, o["writeFlavor"])
+                before = t["B"].getProducts()
+                r = t["B"] if o["into"] == "B" else server.TaggedProductList(c["tag"], o["readFlavor"], log=null)
+                try:
+                    r.read(path)
+                    out.append({"written": written, "before": before, "read": r.getProducts()})
+                except Exception as e:  # noqa
+                    out.append({"written": written, "error": exc_name(e)})
+        except Exception as e:  # noqa
+            out.append({"exception": type(e).__name__})
+            break
+    return {"out": [[list(r) for r in x] if isinstance(x, list) and x and isinstance(x[0], list) else x for x in out]}
+
+
+def oracle_tagseq(c, io_):
+    """From the implementation's own observables, step by step: a merge leaves every row of the other list in this one and
+    keeps the rows of products the other list does not hold; a list written and read back is the flavor filter of what was
+    written (sorted), and reading into a live list updates it without dropping what it held."""
+    fl = {"A": c["flavorA"] or "generic", "B": c["flavorB"] or "generic"}
+    for o, r in zip(c["ops"], io_["out"]):
+        if isinstance(r, dict) and "exception" in r:
+            yield ("taglist_sequence_runs", None, "%s raised %s" % (o["op"], r["exception"]))
+            return
+        if o["op"] == "info":
+            # what the list says about one product is its row in the listing; nothing for a product that is not listed
+            row = [x for x in r["rows"] if x[0] == o["product"]]
+            want = row[0][1:] if row else [None, None]
+            if r["info"] != want:
+                yield ("taglist_info_matches_the_listing", None, "getProductInfo(%r) = %r, the listing says %r" % (o["product"], r["info"], want))
+        elif o["op"] == "merge":
+            other = {x[0]: x for x in r["other"]}
+            after = {x[0]: x for x in r["after"]}
+            for p, row in other.items():
+                if after.get(p) != row:
+                    yield ("taglist_merge_takes_the_other_lists_entries", None, "row %r of the merged list became %r" % (row, after.get(p)))
+            for row in r["before"]:
+                if row[0] not in other and row not in r["after"]:
+                    yield ("taglist_merge_takes_the_other_lists_entries", None, "row %r was lost by the merge" % (row,))
+        elif o["op"] == "roundtrip":
+            if "error" in r:
+                yield ("taglist_reads_back", None, "reading the written list raised: %s" % r["error"])
+                continue
+            reader = fl["B"] if o["into"] == "B" else (o["readFlavor"] or "generic")
+            exp = []
+            for row in sorted(r["written"]):
+                f = o["writeFlavor"] if o["writeFlavor"] is not None else row[1]
+                if f == "generic":
+                    f = reader
+                if f == reader:
+                    exp.append([row[0], f] + row[2:])
+            got = {x[0]: x for x in r["read"]}
+            for row in exp:
+                if got.get(row[0]) != row:
+                    yield ("taglist_same_entries", None, "written %r read back as %r (reader %s)" % (row, got.get(row[0]), reader))
+            if o["into"] == "fresh":
+                if [x[0] for x in r["read"]] != [x[0] for x in exp]:
+                    yield ("taglist_same_entries", None, "read back %r, expected %r" % ([x[0] for x in r["read"]], [x[0] for x in exp]))
+            else:
+                names = [x[0] for x in exp]
+                for row in r["before"]:
+                    if row[0] not in names and row not in r["read"]:
+                        yield ("taglist_read_into_live_list_keeps_its_entries", None, "row %r of the live list was lost" % (row,))
+                if [x[0] for x in r["read"]][:len(r["before"])] != [x[0] for x in r["before"]]:
+                    yield ("taglist_read_into_live_list_keeps_its_entries", None, "positions changed: %r -> %r" %
+                           ([x[0] for x in r["before"]], [x[0] for x in r["read"]]))
+
+
+def gen_mapseq(rng):
+    """Operation SEQUENCES on one live Mapping object: add / merge (what remapEntries(mapping=M) does with the rules of
+    manifest.remap) / inverse / apply interleaved - inverse() is taken, rules are merged in, inverse() is taken again.
+    Mostly sequences that keep the mapping one-to-one on explicit versions (distinct inputs and outputs per flavor)."""
+    prods = [gen_name(rng) for _ in range(rng.randint(2, 5))]
+    for i, p_ in enumerate(prods):
+        if not re.match(r"^[A-Za-z0-9_]+$", p_):
+            prods[i] = "prod%d" % i
+    flav = rng.choice([["generic"], [NATIVE], ["generic", NATIVE], ["generic", NATIVE, "Linux64"]])
+    bij = rng.random() < 0.75
+    ins, outs = set(), set()
+
+    def rule():
+        for _ in range(20):
+            f = rng.choice(flav)
+            i = (f, rng.choice(prods), rng.choice(["1.0", "2.0", "3.0"] if bij else ["1.0", "2.0", "any"]))
+            o = (f, rng.choice(prods + ["other", "repl"]), rng.choice(["4.0", "5.0", "6.0", "7.0"] if bij else ["4.0", "5.0", None]))
+            if bij and (i in ins or o in outs or (i[1], i[2]) == (o[1], o[2])):
+                continue
+            ins.add(i)
+            outs.add(o)
+            return {"inP": i[1], "inV": i[2], "outP": o[1] if (o[1] != i[1] or rng.random() < 0.5) else None, "outV": o[2],
+                    "flavor": f, "overwrite": True}
+        return None
+
+    ops = []
+    for _ in range(rng.randint(1, 3)):
+        r = rule()
+        if r:
+            ops.append(dict(r, op="add"))
+    ops.append({"op": "inverse"})
+    for _ in range(rng.randint(1, 3)):
+        k = rng.random()
+        if k < 0.55:
+            adds = [r for r in (rule() for _ in range(rng.randint(1, 3))) if r]
+            if bij:
+                # merge copies whole per-product tables: keep the merged-in products apart from those already there so
+                # that the result is the union (otherwise entries are replaced or skipped wholesale - also generated, below)
+                pass
+            ops.append({"op": "merge", "adds": adds, "overwrite": rng.random() < (0.3 if bij else 0.6)})
+        elif k < 0.8:
+            r = rule()
+            if r:
+                ops.append(dict(r, op="add"))
+        else:
+            ops.append({"op": "apply", "q": [rng.choice(prods), rng.choice(["1.0", "2.0", "3.0"]), rng.choice(flav + [NATIVE])]})
+        if rng.random() < 0.8:
+            ops.append({"op": "inverse"})
+    if ops[-1]["op"] != "inverse":
+        ops.append({"op": "inverse"})
+    return {"kind": "mapseq", "style": "bijective" if bij else "free", "ops": ops}
+
+
+def impl_mapseq(c):
+    from eups.distrib import server
+    m = server.Mapping()
+    out = []
+    for o in c["ops"]:
+        k = o["op"]
+        if k == "add":
+            m.add(o["inP"], o["inV"], o["outP"], o["outV"], o["flavor"], o["overwrite"])
+            out.append(None)
+        elif k == "merge":
+            before = dump_table(m._mapping)
+            m.merge(build_mapping(o["adds"]), overwrite=o["overwrite"])
+            out.append({"before": before, "after": dump_table(m._mapping)})
+        elif k == "apply":
+            out.append(list(m.apply(*o["q"])))
+        else:
+            rec = {"dump": dump_table(m._mapping)}
+            rows = [(f, p, v) for f, byp in m._mapping.items() for p, byv in byp.items() for v in byv]
+            try:
+                inv = m.inverse()
+                checks = []
+                for f, p, v in rows:
+                    r = m.apply(p, v, f)
+                    checks.append([f, p, v, list(r), None if r[1] is None else list(inv.apply(r[0], r[1], f))])
+                rec["inverse"] = {"dump": dump_table(inv._mapping), "checks": checks}
+            except RuntimeError:
+                rec["inverse"] = "RuntimeError"
+            except Exception as e:  # noqa
+                rec["inverse"] = "EXC:" + type(e).__name__
+            out.append(rec)
+    return {"out": out}
+
+
+def oracle_mapseq(c, io_):
+    """The inverse clause on a LIVE mapping, from the implementation's own observables: each time inverse() is taken, it
+    undoes the mapping as it is at that moment (its dump).  One-to-one (no two entries of one flavor with the same
+    image) => inverse() exists; every entry p:v -> q:w with an explicit in-version that is not an identity is applied by
+    apply() and taken back by the inverse's apply()."""
+    n = 0
+    for o, rec in zip(c["ops"], io_["out"]):
+        if o["op"] == "merge":
+            # merging rules in: a rule for a product the mapping does not mention yet (in that flavor) is there afterwards;
+            # without overwrite, what the mapping said about a product it already mentions stays
+            had = set((r[0], r[1]) for r in rec["before"])
+            final = {}
+            for a in o["adds"]:
+                if a["outV"] and a["outV"].lower() == "noreinstall":
+                    continue
+                final[(a["flavor"], a["inP"], a["inV"])] = [a["flavor"], a["inP"], a["inV"], a["outP"] or a["inP"], a["outV"] or None]
+            for (f, p, v), row in final.items():
+                if (f, p) not in had and row not in rec["after"]:
+                    yield ("merge_adds_the_rules", None, "merged rule %r is missing afterwards: %r" % (row, rec["after"][:8]))
+            if not o["overwrite"]:
+                for r in rec["before"]:
+                    if r not in rec["after"]:
+                        yield ("merge_adds_the_rules", None, "merge without overwrite dropped %r" % (r,))
+            continue
+        if o["op"] != "inverse":
+            continue
+        n += 1
+        rows = [r for r in rec["dump"] if r[2] is not None]
+        images = [(r[0], r[3], r[4]) for r in rows if r[4] is not None]
+        one_to_one = len(images) == len(set(images))
+        inv = rec["inverse"]
+        if not isinstance(inv, dict):
+            if one_to_one:
+                yield ("inverse_exists", None, "inverse #%d: the mapping %r is one-to-one, inverse() raised %s" % (n, rows[:6], inv))
+            continue
+        table = {(r[0], r[1], r[2]): (r[3], r[4]) for r in rows}
+        for f, p, v, fwd, back in inv["checks"]:
+            q, w = table[(f, p, v)]
+            if w is None or v == "any" or (p, v) == (q, w):
+                continue
+            if tuple(fwd) != (q, w):
+                yield ("remap_replaces_as_named", None, "inverse #%d: %s:%s [%s] applied gives %r, the table says %r" % (n, p, v, f, fwd, (q, w)))
+            elif back is None or tuple(back) != (p, v):
+                yield ("inverse_undoes", None, "inverse #%d (taken after %d operations): %s:%s -> %s:%s -> %r [%s]" %
+                       (n, c["ops"].index(o) if o in c["ops"] else -1, p, v, q, w, back, f))
+
+
 def gen_remap(rng):
     """Rules are generated with their meaning: (product, in-version or any, action, flavor, mode)."""
     n = rng.randint(0, 12)
@@ -252,6 +813,24 @@ def gen_remap(rng):
             line = d["product"] + (":" + inv if inv else "") + "   " + out + ("  " + fl if fl else "")
             rules.insert(rng.randint(0, len(rules)), {"product": d["product"], "inV": inv, "act": "version", "out": out,
                                                       "flavor": fl or "generic", "mode": None, "line": line})
+    known = []
+    if deps and rng.random() < 0.25:
+        # the `dummy` branch: entries changed into version `dummy` make remapEntries declare that product
+        for _ in range(rng.randint(1, 3)):
+            d = rng.choice(deps)
+            rules = [r for r in rules if r["product"] != d["product"]]
+            target = rng.choice([None, "stub", "stub", "tcltk_dummy"])
+            inv = rng.choice([None, "any", d["version"]])
+            out = (target + ":" if target else "") + rng.choice(["dummy", "dummy", "dummy", "Dummy", "dummy1"])
+            fl = rng.choice([None, None, NATIVE, "Linux64"])
+            line = d["product"] + (":" + inv if inv else "") + "   " + out + ("  " + fl if fl else "")
+            rules.append({"product": d["product"], "inV": inv, "act": "rename" if target else "version", "out": out,
+                          "flavor": fl or "generic", "mode": None, "line": line})
+        known = [k for k in ["stub", "tcltk_dummy"] + [d["product"] for d in deps[:2]]
+                 if rng.random() < 0.25 and re.match(r"^[a-zA-Z_0-9]+$", k)]
+        if rng.random() < 0.3:
+            dd = rng.choice(deps)               # an entry that is at version dummy already: not changed, nothing declared
+            dd["version"] = "dummy"
     files = [[], []]
     for r in rules:
         files[rng.randint(0, 1)].append(r)
@@ -267,8 +846,24 @@ def gen_remap(rng):
         p = rng.choice(names)
         arg_adds.append({"inP": p, "inV": rng.choice(["any", "1.0"]), "outP": None, "outV": "7.0", "flavor": "generic",
                          "overwrite": True})
-    return {"kind": "remap", "deps": deps, "files": texts, "rules": [[r for r in f] for f in files], "adds": arg_adds,
-            "mode": rng.choice([None, None, "create", "install"])}
+    c = {"kind": "remap", "deps": deps, "files": texts, "rules": [[r for r in f] for f in files], "adds": arg_adds,
+         "mode": rng.choice([None, None, "create", "install"])}
+    if not arg_adds and rng.random() < 0.25:
+        # object sequences: another manifest was remapped earlier in this process, with other manifest.remap files, by a call
+        # without a mapping argument (Manifest.fromFile / Repositories.install do that): it must not influence this call
+        p = rng.choice(names)
+        c["earlier"] = {"files": [[p + rng.choice(["", ":any", ":1.0", ":2.0"]) + "   " + rng.choice(["5.5", "None", "other:6.6"])],
+                                  ["%s   7.7" % rng.choice(names)]],
+                        "deps": deps[:2]}
+    if known or any("ummy" in l for t in texts for l in l_iter(t)):
+        c["known"] = sorted(set(known))
+        if rng.random() < 0.7:
+            c["mode"] = None
+    return c
+
+
+def l_iter(t):
+    return t
 
 
 # ---- implementation --------------------------------------------------------------------------------
@@ -354,7 +949,7 @@ def impl_taglist(c):
     out["text"] = strip_block(raw, TAG_BLOCK)
     out["raw"] = raw
     try:
-        t2 = server.TaggedProductList.fromFile(path, c["tag"], flavor=c["readFlavor"])
+        t2 = server.TaggedProductList.fromFile(path, c.get("readTag", c["tag"]), flavor=c["readFlavor"])
         out["read"] = {"products": t2.getProducts()}
     except Exception as e:  # noqa
         out["read"] = {"error": exc_name(e)}
@@ -440,10 +1035,34 @@ def impl_mapping(c):
     return out
 
 
-def impl_remap(c):
+def _remap_dummy_child(c):
+    """remapEntries on a stack of its own (forked child): the `dummy` branch declares products there."""
+    root = common.scratch("c18d")
+    try:
+        common.mkstacks(root)
+        E = common.new_eups()
+        E._c18root = root
+        for k in c["known"]:
+            E.declare(k, "dummy", "none", tablefile="none")
+        E = common.new_eups()
+        E._c18root = root
+        out = impl_remap(c, E)
+        after = common.new_eups()
+        # everything the call added to the stack, whatever its version
+        out["declared"] = sorted([p.name, p.version] for p in after.findProducts()
+                                 if not (p.version == "dummy" and p.name in c["known"]))
+        return out
+    finally:
+        common.rmtree(root)
+
+
+def impl_remap(c, E=None):
     from eups.distrib import server
     import eups.hooks as hooks
-    E = _eups()
+    if E is None and "known" in c:
+        r = common.in_child(_remap_dummy_child, c)
+        return r[1] if r[0] == "ok" else {"error": "CHILD:" + str(r[1:3])}
+    E = E or _eups()
     dirs = []
     for i, ls in enumerate(c["files"]):
         d = os.path.join(E._c18root, "cust%d" % i)
@@ -452,23 +1071,43 @@ def impl_remap(c):
             f.write("".join(l + "\n" for l in ls))
         dirs.append(d)
     saved = hooks.customisationDirs
+    if "earlier" in c:
+        edirs = []
+        for i, ls in enumerate(c["earlier"]["files"]):
+            d = os.path.join(E._c18root, "earlier%d" % i)
+            os.makedirs(d, exist_ok=True)
+            with open(os.path.join(d, "manifest.remap"), "w", encoding="utf-8") as f:
+                f.write("".join(l + "\n" for l in ls))
+            edirs.append(d)
+        hooks.customisationDirs = edirs
+        try:
+            man0 = server.Manifest("earlier", "1.0", eupsenv=E, verbosity=-1, log=open(os.devnull, "w"))
+            for d in c["earlier"]["deps"]:
+                man0.addDependency(d["product"], d["version"], d["flavor"], d["tablefile"], d["instDir"], d["distId"], d["isOpt"],
+                                   d["recurse"], list(d["extra"]))
+            man0.remapEntries(mode=c["mode"])
+        except Exception:  # noqa
+            pass
     hooks.customisationDirs = dirs
     try:
-        man = server.Manifest("top", "1.0", eupsenv=E, verbosity=-1)
+        man = server.Manifest("top", "1.0", eupsenv=E, verbosity=-1, log=open(os.devnull, "w"))
         for d in c["deps"]:
             man.addDependency(d["product"], d["version"], d["flavor"], d["tablefile"], d["instDir"], d["distId"], d["isOpt"],
                               d["recurse"], list(d["extra"]))
         try:
-            man.remapEntries(mapping=build_mapping(c["adds"]), mode=c["mode"])
+            if "earlier" in c:
+                man.remapEntries(mode=c["mode"])          # no mapping argument, like the earlier call
+            else:
+                man.remapEntries(mapping=build_mapping(c["adds"]), mode=c["mode"])
         except Exception as e:  # noqa
             return {"error": "EXC:" + type(e).__name__}
-        return {"deps": [dep_dict(d) for d in man.getProducts()], "dump": dump_table(man.mapping._mapping)}
+        return {"deps": [dep_dict(d) for d in man.getProducts()], "dump": dump_table(man.mapping._mapping), "declared": []}
     finally:
         hooks.customisationDirs = saved
 
 
 def impl_case(c):
-    return {"manifest": impl_manifest, "taglist": impl_taglist, "mapping": impl_mapping, "remap": impl_remap,
+    return {"manifest": impl_manifest, "taglist": impl_taglist, "mapping": impl_mapping, "mapseq": impl_mapseq, "tagseq": impl_tagseq, "manseq": impl_manseq, "srvfile": impl_srvfile, "createdeps": impl_createdeps, "remap": impl_remap,
             "server": impl_server}[c["kind"]](c)
 
 
@@ -554,8 +1193,14 @@ def oracle_taglist(c, io_):
     if not clean_taglist(c) or "read" not in io_:
         return
     rd = io_["read"]
+    if c.get("readTag", c["tag"]) != c["tag"]:
+        # the header names the tag: a reader that expects another tag refuses the file
+        if "error" not in rd:
+            yield ("taglist_header_names_the_tag", None, "a reader for tag %r accepted the list written for tag %r" %
+                   (c["readTag"], c["tag"]))
+        return
     if "error" in rd:
-        yield ("taglist_reads_back", None, "reading the written list raised: %s" % rd["error"])
+        yield ("taglist_reads_back", None, "reading the list written for tag %r raised: %s" % (c["tag"], rd["error"]))
         return
     listflavor = c["defFlavor"] or "generic"
     reader = c["readFlavor"] or "generic"
@@ -644,7 +1289,25 @@ def remap_matches(exp, got):
     return True
 
 
+def oracle_dummy(c, io_):
+    """The `dummy` branch, from the rules' meaning: a product is declared (version dummy) iff it was not declared before and
+    some entry is changed by its rule into that product at version dummy.  Same preconditions as oracle_remap."""
+    rules = [r for f in c["rules"] for r in f]
+    if "known" not in c or c["adds"] or not remap_simple(rules) or "declared" not in io_:
+        return
+    exp = set()
+    for kind, e in remap_expected(c, rules, True):
+        # (Eups.declare refuses names outside [a-zA-Z_0-9]; remapEntries prints the exception and goes on)
+        if kind == "new" and e[1] == "dummy" and e[0] not in c["known"] and re.match(r"^[a-zA-Z_0-9]*$", e[0]):
+            exp.add(e[0])
+    if sorted([n, "dummy"] for n in exp) != io_["declared"]:
+        yield ("remap_declares_exactly_the_missing_dummy_products", None,
+               "expected %r declared at version dummy, found %r (already declared: %r)" % (sorted(exp), io_["declared"], c["known"]))
+
+
 def oracle_remap(c, io_):
+    for x in oracle_dummy(c, io_):
+        yield x
     """Entries no rule names stay untouched and in place; an entry named by a rule is replaced, renamed or deleted as
     the rule says (the rule for the entry's own version before the rule for `any`).  Evaluated when the rules of each
     product are of one flavor and have distinct in-versions (other tables are left to the correspondence with the
@@ -718,7 +1381,7 @@ def oracle_server(c, io_):
 
 
 ORACLES = {"manifest": oracle_manifest, "taglist": oracle_taglist, "mapping": oracle_mapping, "remap": oracle_remap,
-           "server": oracle_server}
+           "server": oracle_server, "mapseq": oracle_mapseq, "tagseq": oracle_tagseq, "manseq": oracle_manseq, "srvfile": oracle_srvfile, "createdeps": oracle_createdeps}
 
 
 # ---- model -----------------------------------------------------------------------------------------
@@ -735,15 +1398,25 @@ def model_requests(c, io_):
         base = {"m": "c18", "tag": c["tag"], "defFlavor": c["defFlavor"]}
         reqs = [dict(base, op="twrite", adds=c["adds"], flavor=c["writeFlavor"])]
         if "raw" in io_:
-            reqs.append({"m": "c18", "op": "tread", "tag": c["tag"], "defFlavor": c["readFlavor"], "adds": [], "text": io_["raw"]})
+            reqs.append({"m": "c18", "op": "tread", "tag": c.get("readTag", c["tag"]), "defFlavor": c["readFlavor"], "adds": [], "text": io_["raw"]})
         return reqs
     if k == "server":
         return [{"m": "c18", "op": "server", "files": io_["files"], "reqs": c["reqs"], "byTagOnly": False}]
     if k == "mapping":
         return [{"m": "c18", "op": "mapping", "adds": c["adds"], "queries": c["queries"]}]
+    if k == "mapseq":
+        return [{"m": "c18", "op": "mapseq", "ops": c["ops"]}]
+    if k == "createdeps":
+        return [{"m": "c18", "op": "createdeps", "top": c["products"][0]["name"], "topVersion": "1", "deps": io_.get("deps", [])}]
+    if k == "srvfile":
+        return [{"m": "c18", "op": "srvfile", "server": c["server"], "reqs": c["reqs"], "pinned": False}]
+    if k == "manseq":
+        return [{"m": "c18", "op": "manseq", "product": c["product"], "version": c["version"], "native": NATIVE, "ops": c["ops"]}]
+    if k == "tagseq":
+        return [{"m": "c18", "op": "tagseq", "tag": c["tag"], "flavorA": c["flavorA"], "flavorB": c["flavorB"], "ops": c["ops"]}]
     if k == "remap":
         return [{"m": "c18", "op": "remap", "adds": c["adds"], "files": c["files"], "mode": c["mode"], "flavor": NATIVE,
-                 "deps": c["deps"], "pinned": False}]
+                 "deps": c["deps"], "pinned": False, "known": c.get("known", [])}]
     raise ValueError(k)
 
 
@@ -761,11 +1434,16 @@ def model_output(c, io_, answers):
         if len(answers) > 1:
             out["read"] = answers[1]
         return out
-    if k == "mapping":
+    if k in ("mapping", "mapseq", "tagseq", "manseq", "srvfile"):
         return answers[0]
+    if k == "createdeps":
+        return dict(answers[0], deps=io_.get("deps", []))
     if k == "server":
         return {"answers": answers[0]["answers"]}
     a = answers[0]
+    if "declared" in a:
+        # the stack is listed by name afterwards, not in declaration order
+        a = dict(a, declared=sorted([n, "dummy"] for n in a["declared"]))
     return a if "error" not in a else {"error": a["error"]}
 
 
@@ -783,7 +1461,11 @@ def impl_view(c, io_):
 
 # ---- evaluation ------------------------------------------------------------------------------------
 
-NW = 6
+NW = 4
+
+MIRRORS = [("python/eups/distrib/server.py", "*"), ("python/eups/distrib/Distrib.py", "Distrib.writeManifest"),
+           ("python/eups/distrib/Distrib.py", "DefaultDistrib.writeTaggedRelease"),
+           ("python/eups/distrib/Distrib.py", "Distrib.createDependencies"), ("python/eups/distrib/Distrib.py", "Distrib._createDeps")]
 
 
 def nontrivial(c, io_):
@@ -801,6 +1483,16 @@ def nontrivial(c, io_):
         return False
     if k == "mapping":
         return any(list(r) != q[:2] for q, r in zip(c["queries"], io_.get("applied", [])))
+    if k == "createdeps":
+        return len(io_.get("order", [])) > 1
+    if k == "srvfile":
+        return len(c["reqs"]) > 1
+    if k == "manseq":
+        return len(io_.get("out", [])) > 1
+    if k == "tagseq":
+        return any(isinstance(r, dict) and (r.get("other") or r.get("read")) for r in io_.get("out", []))
+    if k == "mapseq":
+        return any(isinstance(r, dict) and isinstance(r.get("inverse"), dict) and r["inverse"]["checks"] for r in io_.get("out", []))
     return "deps" in io_ and io_["deps"] != c["deps"]
 
 
@@ -833,11 +1525,59 @@ def evaluate(ctx, cases):
                 ctx.hist("manifest:mixed-flavors")
         elif kind == "taglist":
             ctx.hist("taglist:%s" % ("clean" if clean_taglist(c) else "dirty"))
+            if c["tag"] in ODD_TAGS:
+                ctx.hist("taglist:odd-tag")
+            if "readTag" in c:
+                ctx.hist("taglist:reader-expects-another-tag")
+        elif kind == "createdeps":
+            if len(io_.get("order", [])) >= 3:
+                ctx.hist("createdeps:three-or-more-products-listed")
+        elif kind == "srvfile":
+            seen = {}
+            for path, dest in c["reqs"]:
+                if dest in seen and seen[dest] != path:
+                    ctx.hist("srvfile:destination-reused-for-another-source")
+                    break
+                seen[dest] = path
+        elif kind == "manseq":
+            for o, r in zip(c["ops"], io_["out"]):
+                if o["op"] in ("roll", "reverse") and isinstance(r, dict) and len(r.get("deps", [])) > 1:
+                    ctx.hist("manseq:order-changed")
+                if o["op"] == "roundtrip" and o["into"] == "live" and isinstance(r, dict) and "read" in r:
+                    ctx.hist("manseq:read-into-live-manifest")
+                if o["op"] == "getdep" and r is not None:
+                    ctx.hist("manseq:getdep-found")
+        elif kind == "tagseq":
+            for o, r in zip(c["ops"], io_["out"]):
+                if o["op"] == "merge" and r["other"]:
+                    ctx.hist("tagseq:merge-of-a-non-empty-list")
+                if o["op"] == "roundtrip" and o["into"] == "B" and isinstance(r, dict) and r.get("before") and r.get("read") != r.get("before"):
+                    ctx.hist("tagseq:read-into-a-live-list-changes-it")
+        elif kind == "mapseq":
+            ctx.hist("mapseq:%s" % c["style"])
+            invs = [r for o, r in zip(c["ops"], io_["out"]) if o["op"] == "inverse"]
+            ctx.hist("mapseq:inverse-taken", len(invs))
+            seen_merge = False
+            n_after = 0
+            for o, r in zip(c["ops"], io_["out"]):
+                if o["op"] == "merge" and o["adds"]:
+                    seen_merge = True
+                elif o["op"] == "inverse" and seen_merge and isinstance(r["inverse"], dict) and \
+                        any(ch[4] is not None and ch[3] != [ch[1], ch[2]] for ch in r["inverse"]["checks"]):
+                    n_after += 1
+            if n_after and isinstance(invs[0]["inverse"], dict):
+                ctx.hist("mapseq:inverse-again-after-merge")
         elif kind == "mapping":
             ctx.hist("mapping:%s" % c["style"])
             ctx.hist("mapping:inverse=%s" % ("ok" if isinstance(io_["inverse"], dict) else io_["inverse"]))
         elif kind == "remap":
             ctx.hist("remap:mode=%s" % c["mode"])
+            if "earlier" in c:
+                ctx.hist("remap:after-an-earlier-call-without-mapping-argument")
+            if "known" in c:
+                ctx.hist("remap:dummy-case")
+                if io_.get("declared"):
+                    ctx.hist("remap:dummy-declared")
         elif kind == "server":
             ctx.hist("server:requests", len(c["reqs"]))
             if nontrivial(c, io_):
@@ -870,7 +1610,8 @@ def corpus_cases():
     return out
 
 
-GEN = {"manifest": gen_manifest, "taglist": gen_taglist, "mapping": gen_mapping, "remap": gen_remap, "server": gen_server}
+GEN = {"manifest": gen_manifest, "taglist": gen_taglist, "mapping": gen_mapping, "remap": gen_remap, "server": gen_server,
+       "mapseq": gen_mapseq, "tagseq": gen_tagseq, "manseq": gen_manseq, "srvfile": gen_srvfile, "createdeps": gen_createdeps}
 
 
 def enum_mappings():
@@ -890,28 +1631,74 @@ def enum_mappings():
     return out
 
 
-def run(ctx):
-    cases = corpus_cases()
-    ctx.hist("corpus", len(cases))
-    evaluate(ctx, cases)
-    en = enum_mappings()
-    ctx.hist("enumerated-mappings", len(en))
-    evaluate(ctx, en)
-    for kind, n in (("manifest", ctx.n(3000, 60000)), ("taglist", ctx.n(1500, 30000)), ("mapping", ctx.n(2000, 40000)),
-                    ("remap", ctx.n(2000, 40000)), ("server", ctx.n(1200, 25000))):
-        done = 0
-        while done < n and not ctx.out_of_time():
-            k = min(600, n - done)
+QUICK = [("manifest", 2000, 500), ("taglist", 1000, 500), ("mapping", 1200, 400), ("mapseq", 1000, 500), ("tagseq", 800, 400),
+         ("manseq", 600, 300), ("srvfile", 600, 300), ("createdeps", 32, 16), ("remap", 1300, 450), ("server", 800, 400)]
+THOROUGH = [("manifest", 60000, 600), ("taglist", 30000, 600), ("mapping", 40000, 600), ("mapseq", 30000, 600), ("tagseq", 30000, 600), ("manseq", 30000, 600), ("srvfile", 20000, 600), ("createdeps", 2000, 48),
+            ("remap", 40000, 600), ("server", 25000, 600)]
+
+
+def run_stream(ctx, budget):
+    """Round-robin over the case classes: every class gets a slice per round, so that a time limit starves none of them."""
+    done = {k: 0 for k, _, _ in budget}
+    while not ctx.out_of_time() and any(done[k] < n for k, n, _ in budget):
+        for kind, n, batch in budget:
+            if done[kind] >= n or ctx.out_of_time():
+                continue
+            k = min(batch, n - done[kind])
             evaluate(ctx, [GEN[kind](ctx.rng) for _ in range(k)])
-            done += k
+            done[kind] += k
+
+
+def check_floors(ctx):
     h = ctx.histogram
     if h.get("manifest:clean", 0) < 0.5 * max(1, h.get("kind=manifest", 0)):
         raise common.InfraError("degenerate distribution: %d clean manifests" % h.get("manifest:clean", 0))
     if h.get("server:mixed-flavors-several-readers", 0) < 0.5 * max(1, h.get("kind=server", 0)):
         raise common.InfraError("degenerate distribution: %d server histories asking several flavors of a mixed-flavor release"
                                 % h.get("server:mixed-flavors-several-readers", 0))
+    if h.get("mapseq:inverse-again-after-merge", 0) < 100:
+        raise common.InfraError("degenerate distribution: inverse() taken, rules merged in, inverse() taken again with entries "
+                                "to undo: %d sequences" % h.get("mapseq:inverse-again-after-merge", 0))
+    if h.get("tagseq:merge-of-a-non-empty-list", 0) < 100 or h.get("tagseq:read-into-a-live-list-changes-it", 0) < 50:
+        raise common.InfraError("degenerate distribution: tag-list sequences: %d merges of a non-empty list, %d reads into a live list "
+                                "that change it" % (h.get("tagseq:merge-of-a-non-empty-list", 0),
+                                                    h.get("tagseq:read-into-a-live-list-changes-it", 0)))
+    if h.get("manseq:order-changed", 0) < 100 or h.get("manseq:read-into-live-manifest", 0) < 30 or h.get("manseq:getdep-found", 0) < 30:
+        raise common.InfraError("degenerate distribution: manifest sequences: %d reorderings, %d reads into the live manifest, %d "
+                                "getDependency hits" % (h.get("manseq:order-changed", 0), h.get("manseq:read-into-live-manifest", 0),
+                                                        h.get("manseq:getdep-found", 0)))
+    if h.get("createdeps:three-or-more-products-listed", 0) < 6:
+        raise common.InfraError("degenerate distribution: %d dependency manifests with three or more products"
+                                % h.get("createdeps:three-or-more-products-listed", 0))
+    if h.get("srvfile:destination-reused-for-another-source", 0) < 100:
+        raise common.InfraError("degenerate distribution: %d server-file histories reuse a destination for another source"
+                                % h.get("srvfile:destination-reused-for-another-source", 0))
+    if h.get("remap:after-an-earlier-call-without-mapping-argument", 0) < 60:
+        raise common.InfraError("degenerate distribution: %d remap cases preceded by an earlier call without a mapping argument"
+                                % h.get("remap:after-an-earlier-call-without-mapping-argument", 0))
+    if h.get("remap:dummy-declared", 0) < 15:
+        raise common.InfraError("degenerate distribution: the dummy branch of remapEntries declared a product in %d cases"
+                                % h.get("remap:dummy-declared", 0))
+    if h.get("taglist:odd-tag", 0) < 50:
+        raise common.InfraError("degenerate distribution: %d tag lists whose tag holds a regular-expression metacharacter"
+                                % h.get("taglist:odd-tag", 0))
     if h.get("manifest:mixed-flavors", 0) < 0.3 * max(1, h.get("kind=manifest", 0)):
         raise common.InfraError("degenerate distribution: %d manifests with mixed flavors" % h.get("manifest:mixed-flavors", 0))
+
+
+def run(ctx):
+    """The ordinary quick portion first and completely - corpus, the enumerated mappings, the generated stream of every
+    class, the distribution floors - and only then whatever the thorough tier (or an escalated quick run) adds."""
+    cases = corpus_cases()
+    ctx.hist("corpus", len(cases))
+    evaluate(ctx, cases)
+    en = enum_mappings()
+    ctx.hist("enumerated-mappings", len(en))
+    evaluate(ctx, en)
+    run_stream(ctx, QUICK)
+    check_floors(ctx)
+    if ctx.tier == "thorough" or ctx.escalated:
+        run_stream(ctx, [(k, n - dict((a, b) for a, b, _ in QUICK)[k], batch) for k, n, batch in THOROUGH])
 
 
 def replay(ctx, rp):
@@ -924,3 +1711,7 @@ def replay(ctx, rp):
     impl = ctx.failures[before[0]]["impl_output"] if fails else (dis[0]["impl"] if dis else None)
     model = ctx.failures[before[0]]["model_output"] if fails else (dis[0]["model"] if dis else None)
     return {"input": c, "impl_output": impl, "model_output": model, "agree": not dis, "disagreements": dis, "fails": fails}
+
+
+def gen_case(rng, kind):
+    return GEN[kind](rng)
